@@ -402,6 +402,15 @@ class TapAdapter(engine.DevAdapter):
         if not ok:
             v.append(violation("kill_chain_in_stage_order_without_skipping", sig, "step %d: kill-chain stage went from %s to %s" % (
                 s.step, getattr(pre, "name", pre), getattr(post, "name", post))))
+        # with repeat_kill_chain an ended chain (succeeded or failed) is started again at the agent's next execution step
+        if b in (SUCCEEDED, FAILED) and st.get("repeat_kill_chain", False):
+            s.ended_for = getattr(s, "ended_for", 0) + 1
+            if s.ended_for > st.get("frequency", 5) + st.get("variance", 0) + 1:
+                v.append(violation("restarts_when_repeat_kill_chain", "%s:stuck-in-%s" % (type(red).__name__, getattr(post, "name", post)),
+                                   "step %d: the kill chain has been %s for %d steps although repeat_kill_chain is true (frequency %d, variance %d)" % (
+                                       s.step, getattr(post, "name", post), s.ended_for, st.get("frequency", 5), st.get("variance", 0))))
+        else:
+            s.ended_for = 0
         # once concluded (no repeat) the agent does nothing
         if a in (SUCCEEDED, FAILED) and not st.get("repeat_kill_chain", False) and red.actions_concluded and h.action != "do-nothing" \
                :
